@@ -358,7 +358,7 @@ fn step(rng: &mut Rng, sink: &mut Sink, w: &mut World, focus: &str) {
         "C04" => [45, 5, 10, 5, 10, 10, 0, 0, 15],
         "C05" => [5, 0, 60, 0, 15, 10, 0, 0, 10],
         "C08" => [5, 35, 10, 30, 15, 0, 0, 0, 5],
-        "C13" => [25, 5, 25, 5, 25, 5, 5, 0, 5],
+        "C13" => [20, 5, 20, 12, 23, 4, 12, 0, 4],
         "C14" => [5, 0, 5, 10, 5, 55, 10, 5, 5],
         "C17" => [0, 0, 5, 35, 20, 5, 35, 0, 0],
         "C18" => [5, 0, 5, 25, 5, 50, 5, 0, 5],
@@ -673,6 +673,44 @@ fn step(rng: &mut Rng, sink: &mut Sink, w: &mut World, focus: &str) {
                 }
             }
         }
+        5 if w.next_tm > 0 && rng.chance(1, 6) => {
+            // somebody calls a token manager directly (not through the service): the issuing endpoint, naming
+            // himself, somebody else or nobody as minter; a manager's own role endpoints
+            let tm = tm_addr(rng.below(w.next_tm as u64) as usize);
+            let who = if rng.chance(1, 4) { w.its.clone() } else { caller.clone() };
+            match rng.below(4) {
+                0 | 1 | 2 => {
+                    let minter: Vec<u8> = match rng.below(4) {
+                        0 => vec![],
+                        1 => {
+                            let mut v = vec![1u8];
+                            v.extend(user(rng.below(6) as u8));
+                            v
+                        }
+                        _ => {
+                            let mut v = vec![1u8];
+                            v.extend(who.clone());
+                            v
+                        }
+                    };
+                    let egld = *rng.pick(&[50000000000000000u128, 50000000000000000, 0]);
+                    let out = sink.exec(&format!(
+                        "tx {} {} deployInterchainToken {} - {}",
+                        hex::encode(&who),
+                        hex::encode(&tm),
+                        egld,
+                        args(&[minter, b"Direct Token".to_vec(), b"DTK".to_vec(), vec![18]])
+                    ));
+                    w.track(&out, PendK::Issue);
+                }
+                _ => {
+                    let f = *rng.pick(&["transferMintership", "proposeMintership", "acceptMintership", "transferOperatorship", "addFlowLimiter"]);
+                    sink.exec(&format!("tx {} {} {} 0 - {}", hex::encode(&who), hex::encode(&tm), f, args(&[user(rng.below(6) as u8)])));
+                }
+            }
+            sink.exec(&format!("query {} getImplementationTypeAndTokenIdentifier -", hex::encode(&tm)));
+            sink.exec(&format!("query {} isMinter {}", hex::encode(&tm), args(&[caller.clone()])));
+        }
         5 => {
             // registrations / deployments aimed at the same or colliding ids
             match rng.below(11) {
@@ -899,9 +937,35 @@ fn step(rng: &mut Rng, sink: &mut Sink, w: &mut World, focus: &str) {
                 if let Some(i) = w.pend.iter().rposition(|p| p.1 == PendK::Props && !p.2) {
                     let id = w.pend[i].0;
                     let owner = w.owner.clone();
-                    let out = w.tx(sink, &owner, "pause", 0, "-", &[]);
-                    if out.starts_with("ok") {
-                        w.paused = true;
+                    // what the owner does inside the window: pause, or change the trusted table under the message
+                    // that is about to leave (entry removed, peer replaced, direct chain turned hub-routed or back)
+                    let action = rng.below(6);
+                    let mut restore: Option<(Vec<u8>, Vec<u8>)> = None;
+                    match action {
+                        0 | 1 => {
+                            let out = w.tx(sink, &owner, "pause", 0, "-", &[]);
+                            if out.starts_with("ok") {
+                                w.paused = true;
+                            }
+                        }
+                        2 => {
+                            let ch = rng.pick(&[ETH.to_vec(), AVA.to_vec(), HUB.to_vec()]).clone();
+                            let back = if ch == ETH { ETH_ITS.to_vec() } else if ch == HUB { HUB_ITS.to_vec() } else { b"hub".to_vec() };
+                            w.tx(sink, &owner, "removeTrustedAddress", 0, "-", &[ch.clone()]);
+                            restore = Some((ch, back));
+                        }
+                        3 => {
+                            w.tx(sink, &owner, "setTrustedAddress", 0, "-", &[ETH.to_vec(), b"0xNewEthereumPeer".to_vec()]);
+                            restore = Some((ETH.to_vec(), ETH_ITS.to_vec()));
+                        }
+                        4 => {
+                            w.tx(sink, &owner, "setTrustedAddress", 0, "-", &[ETH.to_vec(), b"hub".to_vec()]);
+                            restore = Some((ETH.to_vec(), ETH_ITS.to_vec()));
+                        }
+                        _ => {
+                            w.tx(sink, &owner, "setTrustedAddress", 0, "-", &[AVA.to_vec(), b"0xAvalancheDirect".to_vec()]);
+                            restore = Some((AVA.to_vec(), b"hub".to_vec()));
+                        }
                     }
                     let line = match rng.below(4) {
                         0 => format!("deliver {} fail", id),
@@ -912,10 +976,15 @@ fn step(rng: &mut Rng, sink: &mut Sink, w: &mut World, focus: &str) {
                     let out = sink.exec(&format!("cb {}", id));
                     w.pend.remove(i);
                     w.track(&out, PendK::Exec);
-                    if rng.chance(3, 4) {
+                    if action <= 1 && rng.chance(3, 4) {
                         let out = w.tx(sink, &owner, "unpause", 0, "-", &[]);
                         if out.starts_with("ok") {
                             w.paused = false;
+                        }
+                    }
+                    if let Some((ch, back)) = restore {
+                        if rng.chance(3, 4) {
+                            w.tx(sink, &owner, "setTrustedAddress", 0, "-", &[ch, back]);
                         }
                     }
                 }
@@ -977,10 +1046,38 @@ fn step(rng: &mut Rng, sink: &mut Sink, w: &mut World, focus: &str) {
                     let use_dm = if fault == 6 { if dm == b"0xOther".to_vec() { b"0xRemoteMinter".to_vec() } else { b"0xOther".to_vec() } } else { dm.clone() };
                     let use_deployer = if fault == 7 { user(2) } else { user(1) };
                     let use_minter = if fault == 8 { user(5) } else { user(4) };
-                    let uses = if rng.chance(1, 2) { 2 } else { 1 };
-                    for _ in 0..uses {
+                    let windowed = rng.chance(1, 3);
+                    let uses = if windowed || rng.chance(1, 2) { 2 } else { 1 };
+                    for u in 0..uses {
+                        let before = w.pend.len();
                         let out = w.tx(sink, &use_deployer, "deployRemoteInterchainTokenWithMinter", *rng.pick(&[0u128, 9]), "-", &[salt.clone(), use_minter.clone(), use_chain.clone(), use_dm.clone()]);
                         w.track(&out, PendK::Props);
+                        if windowed && u == 0 && w.pend.len() > before {
+                            // while the token lookup of the first use is in flight its author revokes, or approves another
+                            // destination minter; then the lookup comes back (any outcome) and the callback runs: whatever
+                            // the outcome, the used approval stays used and the later decision of the author stands
+                            let i = w.pend.len() - 1;
+                            let id = w.pend[i].0;
+                            match rng.below(3) {
+                                0 => {
+                                    w.tx(sink, &author, "revokeDeployRemoteInterchainToken", 0, "-", &[user(1), salt.clone(), good_chain.clone()]);
+                                }
+                                1 => {
+                                    let other = if dm == b"0xOther".to_vec() { b"0xRemoteMinter".to_vec() } else { b"0xOther".to_vec() };
+                                    w.tx(sink, &author, "approveDeployRemoteInterchainToken", 0, "-", &[user(1), salt.clone(), good_chain.clone(), other]);
+                                }
+                                _ => {}
+                            }
+                            let line = match rng.below(4) {
+                                0 | 1 => format!("deliver {} fail", id),
+                                2 => format!("deliver {} ok {}", id, props(b"NonFungibleESDT", b"NumDecimals-0")),
+                                _ => format!("deliver {} ok {}", id, props(b"FungibleESDT", b"NumDecimals-18")),
+                            };
+                            sink.exec(&line);
+                            let out = sink.exec(&format!("cb {}", id));
+                            w.pend.remove(i);
+                            w.track(&out, PendK::Exec);
+                        }
                     }
                 }
                 6 => {
